@@ -76,6 +76,7 @@ def tr_scenario(name, r):
         if p:
             cfg['params'] = p
     if unit == 'W_op':
+        cfg['no_positional_args'] = dec(mv.get('args.len')) == 0
         cfg['metadata_extractor'] = mv.get('metadata_extractor', 'none') != 'none'
         p = {}
         for k_, key in (('sampling_rate', 'sampling_rate'), ('ignore_enforced_sampling', 'ignore_enforced_sampling'), ('skipped', 'skipped')):
@@ -89,6 +90,8 @@ def tr_scenario(name, r):
 
 def transparent(o):
     """the wrapper behaved like the undecorated code for its caller"""
+    if o.get('called_without_arguments'):
+        return o['body_calls'] == 1 and o.get('body_got_no_arguments') and (o['exit'] == 'ret' and o['result_is_body_result'] or o['exit'] == 'raise' and o['exception_is_body_exception'])
     if o['body_calls'] == 0 and o['exit'] == 'raise' and o['exception_is_interrupt_of_callee']:
         return True
     if o['body_calls'] != 1 or not o['same_args']:
